@@ -138,6 +138,13 @@ func c01(args []string) {
 			emitJSON("FAIL", "", map[string]any{"kind": "encoder-without-usable-destination", "call": k, "panic": fmt.Sprint(p), "err": fmt.Sprint(err)})
 		}
 	}
+	// the stream encoder asked to complete a sequence no message was written for (at the start, between and after sequences, twice in
+	// a row, on every destination kind and buffer size): it must refuse, and whatever it answers the destination keeps exactly the
+	// well-formed sequences completed so far
+	for k := 0; k < 12; k++ {
+		ec, files := r.genChain(true)
+		c01StreamEmptyCompletion(ec, files, 1+k%3, []int{0, 7, 4096}[k%3], k)
+	}
 	for i := -len(odd); i < n; i++ {
 		wellFormed := r.chance(5, 6)
 		var ec encCfg
@@ -295,6 +302,87 @@ func withoutDeclarations(f encFile) (encFile, bool) {
 		out.msgs = append(out.msgs, m)
 	}
 	return out, uses && len(out.msgs) > 0
+}
+
+// c01StreamEmptyCompletion: WriteMessage*/SequenceCompleted histories in which SequenceCompleted is also called with no message
+// written since the encoder was created or last completed (pattern: which of the positions before / between / after the files get
+// such a call, possibly twice).  Observations: every such call returns an error (batch Encode rejects an empty message list in the
+// same way; Model/Stream.v: stream_sequence c s [] = Err), and the destination holds exactly the bytes of the sequences
+// completed so far -- which the SENC line of the same files (without the empty calls) ties to the model.
+func c01StreamEmptyCompletion(ec encCfg, files []encFile, kind, bufSize, pattern int) {
+	sfiles := make([]encFile, len(files))
+	for i, f := range files {
+		sfiles[i] = encFile{msgs: f.msgs}
+	}
+	ref := runEncode(ec, sfiles, kind, bufSize, true, -1, 0, nil)
+	if ref.panicked != nil || len(ref.errs) != len(sfiles) || ref.errs[len(ref.errs)-1] {
+		return // the chain itself is not accepted: nothing to compare with
+	}
+	w, core := newDest(kind, -1, 0, nil)
+	senc, err := encoder.NewStream(w, append(ec.options(), encoder.WithWriteBufferSize(bufSize))...)
+	if err != nil {
+		return
+	}
+	var hist []string
+	fail := func(what string, extra map[string]any) {
+		js := map[string]any{"kind": "stream-completion-without-messages", "what": what, "history": hist, "cfg": ec.coq(), "writer": kindNames[kind],
+			"buffer": bufSize, "input": coqEFiles(sfiles), "destination": fmt.Sprintf("%x", core.data)}
+		for k, v := range extra {
+			js[k] = v
+		}
+		emitJSON("FAIL", "", js)
+	}
+	emptyCall := func(pos int) bool {
+		before := append([]byte(nil), core.data...)
+		times := 1 + (pattern>>2)%2
+		for t := 0; t < times; t++ {
+			err, p := func() (err error, p any) { defer func() { p = recover() }(); return senc.SequenceCompleted(), nil }()
+			hist = append(hist, fmt.Sprintf("SequenceCompleted() with no message written (position %d) -> %v", pos, err))
+			stat("stream_empty_completions", 1)
+			if p != nil {
+				fail("panic", map[string]any{"panic": fmt.Sprint(p)})
+				return false
+			}
+			if err == nil {
+				fail("a completion with no message written reports success (batch Encode rejects an empty message list; model: stream_sequence c s [] = Err E_Empty)",
+					map[string]any{"destination_before": fmt.Sprintf("%x", before)})
+				return false
+			}
+			if !bytes.Equal(before, core.data) {
+				fail("a rejected completion changed the destination", map[string]any{"destination_before": fmt.Sprintf("%x", before)})
+				return false
+			}
+		}
+		return true
+	}
+	for i, f := range sfiles {
+		if (pattern+i)%2 == 0 && !emptyCall(i) {
+			return
+		}
+		msgs := cloneMessages(f.msgs)
+		for k := range msgs {
+			if err := senc.WriteMessage(&msgs[k]); err != nil {
+				fail("WriteMessage rejects a message it accepts without the empty completions", map[string]any{"err": err.Error(), "file": i, "message": k})
+				return
+			}
+		}
+		hist = append(hist, fmt.Sprintf("WriteMessage x %d", len(msgs)))
+		if err := senc.SequenceCompleted(); err != nil {
+			fail("SequenceCompleted rejects a sequence it accepts without the empty completions", map[string]any{"err": err.Error(), "file": i})
+			return
+		}
+		hist = append(hist, "SequenceCompleted()")
+	}
+	if !emptyCall(len(sfiles)) {
+		return
+	}
+	if !bytes.Equal(core.data, ref.data) {
+		fail("the destination differs from the one the same sequences leave without the empty completions", map[string]any{"expected": fmt.Sprintf("%x", ref.data)})
+		return
+	}
+	if seq, ierr := decoder.New(bytes.NewReader(core.data)).CheckIntegrity(); ierr != nil || seq != len(sfiles) {
+		fail("decoder.CheckIntegrity does not accept the destination", map[string]any{"sequences": seq, "err": fmt.Sprint(ierr)})
+	}
 }
 
 // c01Stream: the chain written message by message with the stream encoder (WriteMessage / SequenceCompleted) to a
